@@ -15,6 +15,8 @@ import (
 	"sync"
 	"sync/atomic"
 	"time"
+
+	"github.com/libp2p/go-libp2p/core/network"
 )
 
 // Fault kinds at a request.
@@ -38,6 +40,10 @@ const (
 	// FHold leaves the request pending for this step (the policy did
 	// something else, e.g. cancelled the caller's context).
 	FHold = "hold"
+	// FStreamReset: the client's connection reports a libp2p stream reset
+	// (network.ErrReset) - before the status line (K < 0) or after K body
+	// bytes.
+	FStreamReset = "stream-reset"
 )
 
 // FaultSpec says how one pending request is answered.
@@ -57,7 +63,7 @@ func (f FaultSpec) String() string {
 		return "ok"
 	case FStatus:
 		return fmt.Sprintf("status(%d)", f.Code)
-	case FTruncate, FShortCL, FResetMid, FFlip, FChunk:
+	case FTruncate, FShortCL, FResetMid, FFlip, FChunk, FStreamReset:
 		return fmt.Sprintf("%s(%d)", f.Kind, f.K)
 	case FDelay:
 		return fmt.Sprintf("delay(%v)", f.Delay)
@@ -109,7 +115,7 @@ func (q *ReqRecord) Altered() bool {
 		return false
 	}
 	switch q.Fault.Kind {
-	case FShortCL, FResetMid:
+	case FShortCL, FResetMid, FStreamReset:
 		return true
 	}
 	return !bytes.Equal(q.RespBody, q.OrigBody)
@@ -225,8 +231,26 @@ func (n *Net) dial(ctx context.Context, addr string, isTLS bool) (net.Conn, erro
 		return nil, refusedErr{addr}
 	}
 	c1, c2 := net.Pipe()
-	go n.serve(c2, srv, isTLS)
-	return c1, nil
+	link := &connLink{}
+	go n.serve(c2, srv, isTLS, link)
+	return &clientConn{Conn: c1, link: link}, nil
+}
+
+// connLink lets the server side of a simulated connection tell the client
+// side how the connection ended.
+type connLink struct{ reset atomic.Bool }
+
+type clientConn struct {
+	net.Conn
+	link *connLink
+}
+
+func (c *clientConn) Read(p []byte) (int, error) {
+	n, err := c.Conn.Read(p)
+	if err != nil && n == 0 && c.link.reset.Load() {
+		return 0, network.ErrReset
+	}
+	return n, err
 }
 
 type recorder struct {
@@ -252,7 +276,7 @@ func (w *recorder) Write(b []byte) (int, error) {
 }
 func (w *recorder) Flush() { w.flushes = append(w.flushes, w.buf.Len()) }
 
-func (n *Net) serve(conn net.Conn, srv *Server, isTLS bool) {
+func (n *Net) serve(conn net.Conn, srv *Server, isTLS bool, link *connLink) {
 	defer conn.Close()
 	br := bufio.NewReader(conn)
 	req, err := http.ReadRequest(br)
@@ -297,6 +321,11 @@ func (n *Net) serve(conn net.Conn, srv *Server, isTLS bool) {
 	switch spec.Kind {
 	case FResetBefore:
 		return
+	case FStreamReset:
+		if spec.K < 0 {
+			link.reset.Store(true)
+			return
+		}
 	case FStatus:
 		q.Status = spec.Code
 		writeResp(conn, spec.Code, nil, []byte(http.StatusText(spec.Code)+"\n"), true, 0)
@@ -353,12 +382,15 @@ func (n *Net) serve(conn net.Conn, srv *Server, isTLS bool) {
 		q.RespBody = out[:k]
 		writeRespCL(conn, rw.code, rw.hdr, out[:k], len(out))
 		return
-	case FResetMid:
+	case FResetMid, FStreamReset:
 		k := spec.K
 		if k > len(out) {
 			k = len(out)
 		}
 		q.RespBody = out[:k]
+		if spec.Kind == FStreamReset {
+			link.reset.Store(true)
+		}
 		writeRespCL(conn, rw.code, rw.hdr, out[:k], len(out)+1)
 		return
 	case FFlip:
